@@ -34,6 +34,12 @@ CHECKS = {
   text="Pure part: SubtractAmountFromPeriods on every period list with <=3 periods, amounts 0..4 (thorough 0..6), optional second denomination and every subtrahend 0..total+1; CurrentPeriodShift at every integer time. Stateful part: every sequence <= 3 (thorough 4) of liquidate (amount classes 1/half/all/all+1, to self or another holder), liquid-token transfer, redeem (to self / plain account / another vesting account with earlier or later start) and time jumps; in every state module backing == liquid supply, schedule sum == supply per denom, exact debit/credit per step, account+denom schedule == original schedule after a split, and total locked(t') >= locked in the world where nothing was liquidated for all future event times.",
   note="Messages through the msg-service router; block time set on the branch header; liquid tokens moved by ConvertERC20 + bank send; small integer amounts with minimum liquidation amount parameter set to 1.",
   design="DESIGN.md §3 C11"),
+ "C18": dict(
+  technique="exhaustive cartesian-grid enumeration of signed transactions through the real wrap / Cosmos-encode / decode / unwrap pipeline with field-by-field and derived-figure comparison",
+  engine="E3",
+  text="Every combination of boundary field values (nonce, gas, price/tip/cap incl. 0 and 2^256-1, to nil/address/zero, value, data up to 4 KiB, access-list shapes, chain id incl. unprotected legacy, two signing keys) for the three transaction types (~56k signed transactions, thorough more) goes through FromEthereumTx -> ValidateBasic -> BuildTx -> TxEncoder -> TxDecoder -> GetMsgs -> AsTransaction. Hash, binary encoding, recovered sender, every field incl. V,R,S, msg.Hash, envelope fee/gas and Fee/Cost/EffectiveGasPrice/EffectiveFee/EffectiveCost over 6 base fees are compared with go-ethereum; ValidateBasic's verdict is compared with a reference predicate.",
+  note="Trusted: go-ethereum's transaction type as the reference for hash/sender/cost; the grid, not arbitrary values.",
+  design="DESIGN.md §3 C18"),
 }
 
 PENDING = {}
